@@ -16,6 +16,7 @@ mod run_vclock;
 mod vclock;
 mod run_seq;
 mod sched;
+mod selftest;
 mod seq;
 mod tap;
 mod topo;
@@ -93,6 +94,24 @@ fn main() {
     match cmd.as_str() {
         "check" => std::process::exit(check(&opts)),
         "replay" => std::process::exit(replay(&opts)),
+        "race" => {
+            let mut rep = Report::default();
+            run_sched::real_executor_race(&opts, &mut rep);
+            for (k, v) in rep.extra.iter() {
+                println!("{}: {}", k, v.pretty());
+            }
+            std::process::exit(if rep.violations.is_empty() { 0 } else { 1 })
+        },
+        "selftest" => match selftest::run() {
+            Ok(m) => {
+                println!("selftest ok: {}", m);
+                std::process::exit(0)
+            },
+            Err(e) => {
+                println!("selftest FAILED: {}", e);
+                std::process::exit(2)
+            },
+        },
         "slice" => std::process::exit(run_san::slice_main(&opts, opts.cases.unwrap_or(2), if opts.prop == "C17" { opts.cases.unwrap_or(6) } else { 0 })),
         "deepiter" => std::process::exit(run_san::deepiter_main(opts.cases.unwrap_or(200_000) as usize)),
         "digest" => std::process::exit(run_diff::digest_main(&opts, false)),
@@ -108,6 +127,13 @@ fn main() {
 fn check(o: &Opts) -> i32 {
     let t0 = Instant::now();
     let mut rep = Report::default();
+    match selftest::run() {
+        Ok(msg) => rep.extra.push(("harness_selftest".into(), J::s(&msg))),
+        Err(e) => {
+            println!("INCONCLUSIVE property={} reason=harness self-test failed: {}", o.prop, e);
+            return 2;
+        },
+    }
     let mut engines: Vec<&str> = vec![];
     match o.prop.as_str() {
         "C01" | "C02" | "C03" | "C04" | "C05" | "C07" | "C08" | "C09" | "C10" | "C11" | "C12" | "C14" | "C15" | "C17" => {
@@ -160,6 +186,8 @@ fn check(o: &Opts) -> i32 {
             engines.push("E4-sched");
             run_sched::run(o, &mut rep);
             if o.tier == "thorough" && o.cases.is_none() {
+                engines.push("E4r real-executor race (async-std)");
+                run_sched::real_executor_race(o, &mut rep);
                 engines.push("E5-san (Miri, ThreadSanitizer)");
                 run_san::substeps(o, &mut rep);
             }
